@@ -4,7 +4,7 @@
 //	                                  descriptor, the real HTTP parser, Upgrader.Upgrade inside the request's job, the
 //	                                  conn's real job queue (Conn.Execute/MustExecute) — with GATED callbacks: every
 //	                                  open/message/close handler blocks until the harness releases it.
-//	  O upgrade | go | recv | flip | cb | cbpanic | Q   R log=<completed callbacks> run=<callback currently held or ->
+//	  O upgrade | go | recv | ping | pong | flip | cb | cbpanic | Q   R log=<completed callbacks> run=<callback currently held or ->
 //	  (`cbpanic`: the held callback is released and, if it is a message handler, panics)
 //	  (`C … cb holdexec=1`: the executor holds the upgrade request's closure until `go`, so `flip` can overtake it)
 //
@@ -113,7 +113,8 @@ func genCB(g *lp.Gen, id int) {
 	for k := 0; k < n; k++ {
 		switch r := g.Intn(10); {
 		case r < 4:
-			g.P("O recv")
+			// data messages and, one frame in four, control frames (ping / pong with user-set handlers)
+			g.P("O %s", g.Pick("recv", "recv", "recv", "recv", "recv", "recv", "ping", "pong"))
 		case r < 8:
 			if panicky && g.Chance(1, 2) {
 				g.P("O cbpanic")
@@ -914,20 +915,24 @@ func runWD(e *lp.Exec, head string, ops []string) {
 // ---------------------------------------------------------------------------------- cb: gated callbacks, real job queue
 
 type cbLog struct {
-	mu      sync.Mutex
-	done    []string
-	running string
-	starts  int
-	ends    int
-	overlap bool
-	gate    chan bool // the value released with: true = the handler panics after it has been logged
-	closes  int
-	panics  int
+	mu          sync.Mutex
+	done        []string
+	running     string
+	starts      int
+	ends        int
+	overlap     bool
+	overlapWhat string
+	gate        chan bool // the value released with: true = the handler panics after it has been logged
+	closes      int
+	panics      int
 }
 
 func (l *cbLog) enter(name string) {
 	l.mu.Lock()
 	if l.running != "" {
+		if !l.overlap {
+			l.overlapWhat = fmt.Sprintf("the handler of %s started while the handler of %s was running", name, l.running)
+		}
 		l.overlap = true
 	}
 	l.running = name
@@ -983,7 +988,7 @@ func checkLog(e *lp.Exec, l *cbLog, connEnded bool, what string) {
 	l.mu.Lock()
 	defer l.mu.Unlock()
 	if l.overlap {
-		e.Oracle("c14-callback-order", "%s: a callback started while another one was still running; log %v", what, l.done)
+		e.Oracle("c14-callback-order", "%s: a callback started while another one was still running (%s); log %v", what, l.overlapWhat, l.done)
 	}
 	next := 0
 	for i, n := range l.done {
@@ -996,10 +1001,11 @@ func checkLog(e *lp.Exec, l *cbLog, connEnded bool, what string) {
 			if i != len(l.done)-1 {
 				e.Oracle("c14-close-once", "%s: a callback ran after the close callback; log %v", what, l.done)
 			}
-		case strings.HasPrefix(n, "m"):
+		case strings.HasPrefix(n, "m") || strings.HasPrefix(n, "p"):
+			// m<k> data message, p<k> ping/pong; k = position on the wire, shared by both kinds
 			k := atoi(n[1:])
 			if k != next {
-				e.Oracle("c14-callback-order", "%s: message %d delivered where %d was due; log %v", what, k, next, l.done)
+				e.Oracle("c14-callback-order", "%s: the handler of frame %s ran where frame %d was due (callbacks must follow the wire order, control frames included); log %v", what, n, next, l.done)
 			}
 			next = k + 1
 			if i == 0 {
@@ -1028,6 +1034,10 @@ func runCB(e *lp.Exec, head string, ops []string) {
 	u.OnOpen(func(c *websocket.Conn) { l.enter("open") })
 	u.OnMessage(func(c *websocket.Conn, mt websocket.MessageType, data []byte) { l.enter(string(data)) })
 	u.OnClose(func(c *websocket.Conn, err error) { l.enter("close") })
+	// control frames have callbacks too (user-set ping / pong handlers): they are jobs of the same queue as the data
+	// messages and take their turn in wire order; logged as p<k> (k = position of the frame on the wire)
+	u.SetPingHandler(func(c *websocket.Conn, data string) { l.enter(data) })
+	u.SetPongHandler(func(c *websocket.Conn, data string) { l.enter(data) })
 	mux := http.NewServeMux()
 	mux.HandleFunc("/ws", func(w http.ResponseWriter, r *http.Request) { _, _ = u.Upgrade(w, r, nil) })
 	eng := nbhttp.NewEngine(nbhttp.Config{NPoller: 1, Handler: mux, SupportServerOnly: true, KeepaliveTime: time.Hour,
@@ -1097,11 +1107,18 @@ func runCB(e *lp.Exec, head string, ops []string) {
 				close(holdRel)
 				holdRel = nil
 			}
-		case ow[1] == "recv":
+		case ow[1] == "recv" || ow[1] == "ping" || ow[1] == "pong":
 			if !flipped {
-				feed(maskedFrame(1, []byte(fmt.Sprintf("m%d", seq))))
+				name, op := fmt.Sprintf("m%d", seq), byte(1)
+				switch ow[1] {
+				case "ping":
+					name, op = fmt.Sprintf("p%d", seq), 9
+				case "pong":
+					name, op = fmt.Sprintf("p%d", seq), 10
+				}
+				feed(maskedFrame(op, []byte(name)))
 				if upgraded && !nbc.VerifState().Closed {
-					fedNames = append(fedNames, fmt.Sprintf("m%d", seq))
+					fedNames = append(fedNames, name)
 				}
 			}
 			seq++
@@ -1155,7 +1172,7 @@ func runCB(e *lp.Exec, head string, ops []string) {
 				defer l.mu.Unlock()
 				n := 0
 				for _, d := range l.done {
-					if strings.HasPrefix(d, "m") {
+					if strings.HasPrefix(d, "m") || strings.HasPrefix(d, "p") {
 						n++
 					}
 				}
